@@ -23,13 +23,64 @@ def node_map(ty):
     return "HashMap<" in ty and "NonNull<lru::raw::EntryNode" in ty
 
 
+ORDER_FREE = ("get", "get_mut", "get_key_value", "contains_key", "contains", "insert", "remove", "remove_entry", "len", "is_empty", "capacity", "reserve",
+              "shrink_to_fit", "shrink_to", "clear", "entry", "hasher", "try_reserve", "take", "replace")
+HASH_HEADS = ("HashMap<", "HashSet<", "hash_map::", "hash_set::", "hash::map::", "hash::set::")
+
+
+def hash_container(ty):
+    return any(h in ty for h in HASH_HEADS)
+
+
+def origin(b, op, depth=0):
+    """where the operand's value comes from inside this body: 'param' iff every definition chain ends in one of the function's own arguments"""
+    if op.get("k") not in ("move", "copy"):
+        return "is a constant"
+    l = op["p"]["l"]
+    seen = set()
+    work = [l]
+    while work:
+        l = work.pop()
+        if l in seen:
+            continue
+        seen.add(l)
+        if 1 <= l <= b["arg_count"]:
+            continue
+        defs = []
+        for blk in b["blocks"]:
+            for s in blk["s"]:
+                if s["k"] == "assign" and s["p"]["l"] == l:
+                    defs.append(s["r"])
+            t = blk["t"]
+            if t["k"] == "call" and t.get("d") and t["d"]["l"] == l:
+                # an iterator/view derived from a hash container inherits that container's origin
+                src = [a for a, ty in zip(t["args"], t["arg_tys"]) if hash_container(ty) and a.get("k") in ("move", "copy")]
+                if not src:
+                    return "is built here (result of %s)" % ((t["f"].get("resolved") or t["f"]).get("q") or "an indirect call")
+                work.extend(a["p"]["l"] for a in src)
+                defs.append(None)
+        if not defs:
+            return "has no visible definition"
+        for r in defs:
+            if r is None:
+                continue
+            if r["k"] in ("use", "cast") and r["o"].get("k") in ("move", "copy"):
+                work.append(r["o"]["p"]["l"])
+            elif r["k"] == "ref":
+                work.append(r["p"]["l"])
+            else:
+                return "is built here (%s)" % r["k"]
+    return "param"
+
+
 def run(cx, chk):
     chk.rule("C17.R1", "no order-exposing iteration over a hash index of entry nodes outside Drop::drop")
     chk.rule("C17.R2", "no address observation: pointer->int casts, addr(), ordered pointer comparison, pointer formatting")
     chk.rule("C17.R3", "no hash values computed in the LRU-family modules; in W-TinyLFU the hash flows only into TinyLFU")
     chk.rule("C17.R4", "no clock / random source in the LRU-family modules")
+    chk.rule("C17.R5", "a hash container that is not the node index is only consumed in iteration order when it is the caller's own argument: no hash container built inside the LRU-family modules is iterated or handed on")
     for cfg, F in cx.cfgs():
-        n_calls = n_drop = n_casts = n_cmp = 0
+        n_calls = n_drop = n_casts = n_cmp = n_hc = 0
         for b in F.doc["bodies"]:
             fn = F.fns[b["path"]]
             owner = fn
@@ -84,10 +135,23 @@ def run(cx, chk):
                         chk.violation("C17.R3", "hash|%s|%s" % (fn["q"], name), "%s computes a hash value in an LRU-family module" % q, file, t["ln"], fn["q"], None, cfg)
                     if any(x in q for x in ("std::time::", "SystemTime", "Instant::", "rand::", "getrandom")):
                         chk.violation("C17.R4", "ambient|%s|%s" % (fn["q"], name), "%s: clock/random source in an LRU-family module" % q, file, t["ln"], fn["q"], None, cfg)
+                if in_lru and not is_drop:
+                    for ai, aty in enumerate(t["arg_tys"]):
+                        if not hash_container(aty) or node_map(aty) or name in ORDER_FREE:
+                            continue
+                        n_hc += 1
+                        org = origin(b, t["args"][ai])
+                        if org == "param":
+                            chk.ob("C17.R5", "%s:%s|%s|%s" % (cfg, owner["q"], name, aty[:40]), "the caller's own %s is consumed by %s" % (aty, name))
+                        else:
+                            chk.violation("C17.R5", "%s|%s|%s" % (owner["q"], name, aty[:40]),
+                                          "%s passes a %s that %s to %s: a hash container built inside the crate is consumed in an order that depends on the hasher" % (owner["q"], aty, org, q),
+                                          file, t["ln"], fn["q"], None, cfg)
                 if file.startswith("src/lfu/wtinylfu") and name == "hash_key":
                     chk.violation("C17.R3", "wtinylfu-hash|%s" % fn["q"], "W-TinyLFU computes a key hash outside TinyLFU", file, t["ln"], fn["q"], None, cfg)
         chk.floor("C17.R1", "calls scanned in %s" % cfg, n_calls, 1000)
         chk.floor("C17.R1", "allowed drain site in Drop (%s)" % cfg, n_drop, 1)
+        chk.floor("C17.R5", "caller-supplied hash containers consumed in %s" % cfg, n_hc, 2)
         chk.ob("C17.R2", cfg + ":casts", "no pointer->integer cast among all cast rvalues; %d pointer equality tests (allowed)" % n_cmp)
         chk.ob("C17.R3", cfg + ":hash", "no hash value computed in %s" % (LRU_FILES,))
         chk.ob("C17.R4", cfg + ":ambient", "no clock/random call in the LRU-family modules")
